@@ -20,14 +20,17 @@ META = {
     "property_id": "C13",
     "design_ref": "DESIGN.md §4 C13",
     "technique": "Coq proof by induction over step histories on a discrete model of the failure-tolerance protocol (masked index list, per-block counters, per-factor stored-matrix tokens) + correspondence with the real optimizer under injected fault scripts, evaluated by vm_compute inside coqc; certified checker on the observed run",
-    "level_text": "Theorems for every history of step inputs (presence selector per block, routine outcome and factor-matrix finiteness per factor), every tolerance N, frequency, start step and block layout, on the Gallina model of DistributedShampoo.step / _amortized_computation / _raise_exception_if_failure_tolerance_exceeded / compress_preconditioner_list: the failure counter equals the number of consecutive failed refreshes the block took part in, computed from the inputs and the exceptions alone (refinement); the tolerance error for block b is raised iff that number exceeds N; a clean refresh resets it; a failed computation keeps the stored matrix; stored matrices are finite in every reachable state, where a routine result that is finite in the factor dtype but overflows the dtype it is stored in (SuccessOverflowsStorage, e.g. a float32 root 1e6 for a float16 parameter) counts as non-finite and makes the step raise; a raising step writes no parameter; NaN/Inf in a factor matrix or computed matrix of a present block at a refresh makes the step raise and the PreconditionerValueError names the first such factor; the model's own observations satisfy the checker's specification. Both list classes follow the same protocol and share the model. The model is tied to the code by running the real optimizer (Shampoo, SOAP eigh, SOAP QR; 2-4 parameters, some blocked, some with ignored dims; parameter/factor dtypes float32/float32, float64/float64, float16/float32, bfloat16/float32, float32/float64) on seeded presence histories x fault scripts x NaN/Inf gradients and comparing every step inside coqc.",
+    "level_text": "Theorems for every history of step inputs (presence selector per block, routine outcome and factor-matrix finiteness per factor), every tolerance N, frequency, start step and block layout, on the Gallina model of DistributedShampoo.step / _amortized_computation / _raise_exception_if_failure_tolerance_exceeded / compress_preconditioner_list: the failure counter equals the number of consecutive failed refreshes the block took part in, computed from the inputs and the exceptions alone (refinement); the tolerance error for block b is raised iff that number exceeds N; a clean refresh resets it; a failed computation keeps the stored matrix; stored matrices are finite in every reachable state, where a routine result that is finite in the factor dtype but overflows the dtype it is stored in (SuccessOverflowsStorage, e.g. a float32 root 1e6 for a float16 parameter) counts as non-finite and makes the step raise; a raising step writes no parameter; NaN/Inf in a factor matrix or computed matrix of a present block at a refresh makes the step raise and the PreconditionerValueError names the first such factor; one warning is logged per failed computation; the model's own observations satisfy the checker's specification. Both list classes follow the same protocol and share the model. The model is tied to the code by running the real optimizer (Shampoo with eigen / coupled-Newton / higher-order roots, SOAP eigh, SOAP QR; 2-4 parameters in one or two twin parameter groups, some blocked, scalar, single-element or empty, some with ignored dims; routine failures of six exception classes, NaN/+Inf/-Inf results at several matrix positions; zero, tiny, huge, non-contiguous and NaN/Inf gradients; parameter/factor dtypes float32/float32, float64/float64, float16/float32, bfloat16/float32, float32/float64) on seeded presence histories x fault scripts x NaN/Inf gradients and comparing every step inside coqc.",
     "level_note": "Trusted: Coq kernel+vm_compute; the hand-written model (checked against the code on the generated histories only); the harness (mock.patch of matrix_inverse_root / matrix_eigenvectors in shampoo_preconditioner_list, parsing of the block/factor named in exception messages, identification of a stored matrix with the routine result it equals bitwise). Matrices are abstracted to tokens: numerical content of roots/eigenvectors is C10-C12's subject. Single process, default Distributor (local blocks = all blocks). The model states the cast-then-check protocol for both list classes; the SOAP list of the code checks before the narrowing copy_, which the check reports as finding C13:soap-eigvec-storage-overflow (reachable only when the eigenvector routine returns a finite matrix that overflows the storage dtype, i.e. under fault injection).",
     "ready": True,
 }
 
-KINDS = ("shampoo", "soap_eigh", "soap_qr")
-SHAPE_POOL = ((3, 4), (3, 4), (4, 3), (2, 2), (5,), (3,), (2, 3, 2), (4, 6), (1, 3))
-CODE2COQ = {"ok": "Success", "raise": "Fail", "nan": "SuccessNonFinite", "inf": "SuccessNonFinite", "ovf": "SuccessOverflowsStorage"}
+KINDS = ("shampoo", "soap_eigh", "soap_qr", "shampoo_newton", "shampoo_higher")
+SHAPE_POOL = ((3, 4), (3, 4), (4, 3), (2, 2), (5,), (3,), (2, 3, 2), (4, 6), (1, 3), (1,), ())
+CODE2COQ = {"ok": "Success", "raise": "Fail", "nan": "SuccessNonFinite", "inf": "SuccessNonFinite", "-inf": "SuccessNonFinite",
+            "ovf": "SuccessOverflowsStorage"}
+RAISE_CLASSES = ("RuntimeError", "ValueError", "ArithmeticError", "LinAlgError", "Custom", "PVE")
+NONFINITE_CODES = ("nan", "inf", "-inf", "nan:last", "inf:offdiag", "nan:all", "-inf:offdiag")
 # parameter (= storage) dtype / preconditioner (factor matrix) dtype; the last three narrow at the store
 PDTYPES = {"f32": ("float32", "float32"), "f64": ("float64", "float64"), "f16": ("float16", "float32"),
            "bf16": ("bfloat16", "float32"), "f32_pre64": ("float32", "float64")}
@@ -35,8 +38,20 @@ NARROWING = ("f16", "bf16", "f32_pre64")
 SOAP_OVERFLOW_SIG = "C13:soap-eigvec-storage-overflow"
 
 
+def coq_code(code: str) -> str:
+    return CODE2COQ[code.split(":")[0]]
+
+
+def is_shampoo(config) -> bool:
+    return config["kind"].startswith("shampoo")
+
+
 def pdtype_of(config) -> str:
     return config.get("pdtype") or ("f64" if config.get("f64") else "f32")
+
+
+def groups_of(config) -> list:
+    return config.get("groups") or [list(range(len(config["shapes"])))]
 
 
 def overflow_value(storage_dtype) -> float:
@@ -45,12 +60,16 @@ def overflow_value(storage_dtype) -> float:
     return {torch.float16: 1e6, torch.bfloat16: 3.4e38, torch.float32: 1e39}[storage_dtype]
 
 
+class InjectedFailure(Exception):
+    pass
+
+
 # ----------------------------------------------------------------------------------------------
 # the implementation side
 
 
 def build(config):
-    """Instantiate parameters + optimizer for a config; returns (params, opt, plist, dist, stored, nfs, block2param)."""
+    """Instantiate parameters + optimizer for a config; returns (params, opt, G) with one record per parameter group."""
     import logging
     import torch
     logging.disable(logging.CRITICAL)
@@ -59,7 +78,7 @@ def build(config):
         AdaGradGraftingConfig, EigenvalueCorrectedShampooPreconditionerConfig, ShampooPreconditionerConfig,
         DISTRIBUTOR, SHAMPOO_PRECONDITIONER_LIST,
     )
-    from matrix_functions_types import EighEigenvectorConfig, QRConfig
+    from matrix_functions_types import CoupledHigherOrderConfig, CoupledNewtonConfig, EighEigenvectorConfig, QRConfig
 
     dtype, pre_dtype = (getattr(torch, x) for x in PDTYPES[pdtype_of(config)])
     g = torch.Generator().manual_seed(config["pseed"])
@@ -68,195 +87,343 @@ def build(config):
     kw = dict(num_tolerated_failed_amortized_computations=config["N"], ignored_dims=list(config["ignored_dims"]))
     if kind == "shampoo":
         pc = ShampooPreconditionerConfig(**kw)
+    elif kind == "shampoo_newton":
+        pc = ShampooPreconditionerConfig(amortized_computation_config=CoupledNewtonConfig(max_iterations=20), **kw)
+    elif kind == "shampoo_higher":
+        pc = ShampooPreconditionerConfig(amortized_computation_config=CoupledHigherOrderConfig(max_iterations=20), **kw)
     elif kind == "soap_eigh":
         pc = EigenvalueCorrectedShampooPreconditionerConfig(amortized_computation_config=EighEigenvectorConfig(), **kw)
     else:
         pc = EigenvalueCorrectedShampooPreconditionerConfig(amortized_computation_config=QRConfig(), **kw)
+    groups = groups_of(config)
     opt = DistributedShampoo(
-        params, lr=0.01, betas=(config["beta1"], config["beta2"]), epsilon=1e-8 if kind != "shampoo" else 1e-10,
+        [{"params": [params[i] for i in grp]} for grp in groups],
+        lr=0.01, betas=(config["beta1"], config["beta2"]), epsilon=1e-8 if not is_shampoo(config) else 1e-10,
         max_preconditioner_dim=config["mpd"], precondition_frequency=config["freq"],
         start_preconditioning_step=config["start"], use_merge_dims=config["merge"],
         grafting_config=AdaGradGraftingConfig(epsilon=1e-8) if config["graft"] else None,
         preconditioner_dtype=pre_dtype, preconditioner_config=pc,
+        use_bias_correction=config.get("bias_corr", True), weight_decay=config.get("wd", 0.0),
+        use_decoupled_weight_decay=config.get("wd_decoupled", True), momentum=config.get("momentum", 0.0),
+        inv_root_override=config.get("inv_root_override", 0),
     )
-    sl = opt._per_group_state_lists[0]
-    plist, dist = sl[SHAMPOO_PRECONDITIONER_LIST], sl[DISTRIBUTOR]
-    kfs = plist._local_kronecker_factors_list
-    if kind == "shampoo":
-        stored = [list(kf.inv_factor_matrices) for kf in kfs]
-    else:
-        stored = [list(kf.factor_matrices_eigenvectors) for kf in kfs]
-    nfs = [len(kf.factor_matrices) for kf in kfs]
-    block2param = [pi for pi, nbk in enumerate(dist._global_num_blocks_per_param) for _ in range(nbk)]
-    return params, opt, plist, dist, stored, nfs, block2param
+    G = []
+    for gi, grp in enumerate(groups):
+        sl = opt._per_group_state_lists[gi]
+        plist, dist = sl[SHAMPOO_PRECONDITIONER_LIST], sl[DISTRIBUTOR]
+        kfs = plist._local_kronecker_factors_list
+        stored = [list(kf.inv_factor_matrices if is_shampoo(config) else kf.factor_matrices_eigenvectors) for kf in kfs]
+        nfs = [len(kf.factor_matrices) for kf in kfs]
+        b2p = [grp[pi] for pi, nbk in enumerate(dist._global_num_blocks_per_param) for _ in range(nbk)]
+        G.append({"sl": sl, "plist": plist, "dist": dist, "kfs": kfs, "stored": stored, "nfs": nfs, "b2p": b2p})
+    return params, opt, G
+
+
+def layout(config):
+    """(nfs, block->param) over all blocks of all groups in order - the indexing of a history's `script`."""
+    _, _, G = build(config)
+    return [n for g in G for n in g["nfs"]], [q for g in G for q in g["b2p"]]
+
+
+def make_grad(torch, p, gen, kind, poison, ppos, pdtype):
+    """Gradient of one parameter: standard normal, or one of the special classes."""
+    gr = torch.randn(tuple(p.shape), generator=gen, dtype=torch.float32)
+    if kind == "zero":
+        gr = gr * 0.0                                       # present, exactly zero
+    elif kind == "tiny":
+        gr = gr * 1e-5
+    elif kind == "tiny2":
+        gr = gr * 1e-25                                     # squares underflow to exactly zero in float32
+    gr = gr.to(p.dtype)
+    if gr.numel():
+        if kind == "huge":                                  # finite gradient whose outer product overflows the factor dtype
+            big = {"f32": 1e30, "f64": 1e200}.get(pdtype)
+            if big is not None:
+                gr.view(-1)[ppos % gr.numel()] = big
+        if poison:
+            gr.view(-1)[ppos % gr.numel()] = float(poison)
+    if kind == "noncontig" and gr.dim() == 2:
+        gr = gr.t().contiguous().t()                        # same values, column-major strides
+    return gr
 
 
 def run_impl(config, history):
-    """Run the real optimizer over `history`; returns the list of per-step observations."""
+    """Run the real optimizer over `history`; returns one view per parameter group with its per-step observations
+    (a group has an observation for the steps in which optimizer.step() got to it)."""
     import torch
     from unittest import mock
     import distributed_shampoo.utils.shampoo_preconditioner_list as plmod
-    from distributed_shampoo.shampoo_types import PreconditionerValueError
+    from distributed_shampoo.shampoo_types import PreconditionerValueError, STEP
 
-    params, opt, plist, dist, stored, nfs, block2param = build(config)
-    kfs = plist._local_kronecker_factors_list
-    kind = config["kind"]
-    nbk = len(nfs)
-    idx2bk = {}
-    for b, kf in enumerate(kfs):
-        for k, s in enumerate(kf.factor_matrix_indices):
-            idx2bk[s] = (b, k)
+    params, opt, G = build(config)
+    shampoo = is_shampoo(config)
+    pdt = pdtype_of(config)
+    offs, o = [], 0
+    for gr_ in G:
+        offs.append(o)
+        o += len(gr_["nfs"])
+        gr_["idx2bk"] = {s: (b, k) for b, kf in enumerate(gr_["kfs"]) for k, s in enumerate(kf.factor_matrix_indices)}
+        gr_["results"] = {(b, k): [] for b in range(len(gr_["nfs"])) for k in range(gr_["nfs"][b])}   # finite successful results
+        gr_["obs"] = []
+        gr_["tick"] = 0
     real = {"matrix_inverse_root": plmod.matrix_inverse_root, "matrix_eigenvectors": plmod.matrix_eigenvectors}
-    results = {(b, k): [] for b in range(nbk) for k in range(nfs[b])}   # finite successful results: (tick, tensor)
     st = {}
+    exc_classes = {"RuntimeError": RuntimeError, "ValueError": ValueError, "ArithmeticError": ArithmeticError,
+                   "LinAlgError": torch.linalg.LinAlgError, "Custom": InjectedFailure, "PVE": PreconditionerValueError}
 
-    def inspected(b, k):
-        m = kfs[b].factor_matrices[k]
-        return m / plist._bias_correction2 if kind == "shampoo" else m
+    def inspected(gi, b, k):
+        m = G[gi]["kfs"][b].factor_matrices[k]
+        return m / G[gi]["plist"]._bias_correction2 if shampoo else m
 
     def make_wrapper(name):
         def wrapper(*a, **kw):
-            idx = st["calls"]
-            st["calls"] += 1
-            plan = st["plan"]
+            gi = st["cur_group"]                 # set by the pass-through wrapper around each list's _amortized_computation
+            plan = st["plan"][gi] if gi is not None else []
+            idx = st["calls"][gi] if gi is not None else 0
             A = kw["A"] if "A" in kw else a[0]
             if idx < len(plan):
                 b, k, code = plan[idx]
-                if kind == "shampoo":
-                    st["order_ok"] &= bool(torch.equal(A, inspected(b, k)))
+                st["calls"][gi] += 1
+                st["last_group"] = gi
+                if shampoo:
+                    st["order_ok"] &= bool(torch.equal(A, inspected(gi, b, k)))
                 else:
-                    st["order_ok"] &= A is kfs[b].factor_matrices[k]
+                    st["order_ok"] &= A is G[gi]["kfs"][b].factor_matrices[k]
             else:
-                b, k, code = None, None, "ok"
+                gi, b, k, code = None, None, None, "ok"
                 st["order_ok"] = False
-            if code == "raise":
-                st["rec"][(b, k)] = "raise"
-                raise RuntimeError("injected failure of the matrix routine")
-            sdt = stored[b][k].dtype if b is not None else A.dtype      # dtype the result will be stored in
-            if code in ("nan", "inf", "ovf"):
-                r = torch.eye(A.shape[0], dtype=A.dtype)
-                r[0, 0] = float(code) if code != "ovf" else overflow_value(sdt)   # KeyError for a non-narrowing store: never generated
+            rec = st["rec"]
+            if code.startswith("raise"):
+                rec[(gi, b, k)] = "raise"
+                cls = exc_classes[code.split(":")[1]] if ":" in code else RuntimeError
+                raise cls("injected failure of the matrix routine")
+            sdt = G[gi]["stored"][b][k].dtype if gi is not None else A.dtype      # dtype the result will be stored in
+            base = code.split(":")[0]
+            if base in ("nan", "inf", "-inf", "ovf") and A.numel() > 0:
+                n = A.shape[0]
+                r = torch.eye(n, dtype=A.dtype)
+                val = float(base) if base != "ovf" else overflow_value(sdt)   # KeyError for a non-narrowing store: never generated
+                where = code.split(":")[1] if ":" in code else "first"
+                if where == "all":
+                    r = torch.full((n, n), val, dtype=A.dtype)
+                elif where == "last":
+                    r[n - 1, n - 1] = val
+                elif where == "offdiag" and n > 1:
+                    r[0, n - 1] = val
+                else:
+                    r[0, 0] = val
             else:
                 try:
                     r = real[name](*a, **kw)
                 except Exception:
-                    st["rec"][(b, k)] = "raise"
+                    rec[(gi, b, k)] = "raise"
                     raise
             # classify what the routine returned: finite / finite only before the narrowing store / not finite
             if not bool(torch.isfinite(r).all()):
-                st["rec"][(b, k)] = "nan"
+                rec[(gi, b, k)] = "nan"
             elif not bool(torch.isfinite(r.to(dtype=sdt)).all()):
-                st["rec"][(b, k)] = "ovf"
+                rec[(gi, b, k)] = "ovf"
             else:
-                st["rec"][(b, k)] = "ok"
-                if b is not None:
-                    results[(b, k)].append((st["tick"], r.detach().clone()))
+                rec[(gi, b, k)] = "ok"
+                if gi is not None:
+                    G[gi]["results"][(b, k)].append((G[gi]["tick"] + 1, r.detach().clone()))
             return r
         return wrapper
+
+    def on_warning(*a, **kw):
+        if st.get("last_group") is not None:
+            st["warn"][st["last_group"]] += 1
 
     def bits(t):
         c = t.detach().clone().contiguous()
         return c.view({8: torch.int64, 4: torch.int32, 2: torch.int16}[c.element_size()])
 
-    observations = []
+    def snapshot(gr_):
+        return ([bits(x) for x in gr_["dist"]._global_blocked_params], [bits(m) for row in gr_["stored"] for m in row],
+                list(getattr(gr_["plist"], "_local_failed_amortized_computation_counter_list", [])))
+
+    def same(x, y):
+        return all(bool(torch.equal(a, b)) for a, b in zip(x[0], y[0])) and all(bool(torch.equal(a, b)) for a, b in zip(x[1], y[1])) and x[2] == y[2]
+
+    def passthrough(gi, orig):
+        def amortized():
+            st["cur_group"] = gi
+            try:
+                return orig()
+            finally:
+                st["cur_group"] = None
+        return amortized
+
+    for gi, gr_ in enumerate(G):
+        gr_["plist"]._amortized_computation = passthrough(gi, gr_["plist"]._amortized_computation)
+
     with mock.patch.object(plmod, "matrix_inverse_root", make_wrapper("matrix_inverse_root")), \
-            mock.patch.object(plmod, "matrix_eigenvectors", make_wrapper("matrix_eigenvectors")):
-        for tick, stp in enumerate(history, start=1):
-            g = torch.Generator().manual_seed(stp["gseed"])
+            mock.patch.object(plmod, "matrix_eigenvectors", make_wrapper("matrix_eigenvectors")), \
+            mock.patch.object(plmod.logger, "warning", on_warning):
+        for t, stp in enumerate(history, start=1):
+            gen = torch.Generator().manual_seed(stp["gseed"])
+            gk = stp.get("gkind") or [None] * len(params)
+            pp = stp.get("ppos") or [0] * len(params)
             for pi, p in enumerate(params):
-                if stp["present"][pi]:
-                    gr = torch.randn(p.shape, generator=g, dtype=torch.float32).to(p.dtype)
-                    if stp["poison"][pi]:
-                        gr.view(-1)[0] = float(stp["poison"][pi])
-                    p.grad = gr
-                else:
-                    torch.randn(p.shape, generator=g, dtype=torch.float32)
-                    p.grad = None
-            present_b = [bool(stp["present"][block2param[b]]) for b in range(nbk)]
-            st.update(calls=0, tick=tick, rec={}, order_ok=True,
-                      plan=[(b, k, stp["script"][b][k]) for b in range(nbk) if present_b[b] for k in range(nfs[b])])
-            before = [bits(x) for x in dist._global_blocked_params]
+                gr = make_grad(torch, p, gen, gk[pi], stp["poison"][pi], pp[pi], pdt)
+                p.grad = gr if stp["present"][pi] else None
+            plan = []
+            for gi, gr_ in enumerate(G):
+                gr_["present_b"] = [bool(stp["present"][q]) for q in gr_["b2p"]]
+                plan.append([(b, k, stp["script"][offs[gi] + b][k]) for b in range(len(gr_["nfs"])) if gr_["present_b"][b] for k in range(gr_["nfs"][b])])
+            st.update(calls=[0] * len(G), warn=[0] * len(G), rec={}, order_ok=True, plan=plan, last_group=None, cur_group=None)
+            before = [snapshot(gr_) for gr_ in G]
+            steps_before = [int(gr_["sl"][STEP]) for gr_ in G]
             exc = None
             try:
                 opt.step()
             except Exception as e:  # noqa
                 exc = e
-            # classify the exception
-            if exc is None:
-                out = ["ok"]
-            elif type(exc) is PreconditionerValueError:
-                m = re.search(r"factor matrix ([^\s!]+)!", str(exc))
-                out = ["pve", *idx2bk[m.group(1)]] if m and m.group(1) in idx2bk else ["other", "PreconditionerValueError(unparsed)"]
-            elif type(exc) is ValueError and "exceeded the allowed tolerance" in str(exc):
-                m = re.search(r"for factors \('([^']+)'", str(exc))
-                out = ["tol", idx2bk[m.group(1)][0]] if m and m.group(1) in idx2bk else ["other", "ValueError(unparsed)"]
-            else:
-                out = ["other", type(exc).__name__ + ": " + str(exc)[:120]]
-            after = [bits(x) for x in dist._global_blocked_params]
-            toks, fins, fmf = [], [], []
-            for b in range(nbk):
-                tb, fb, mb = [], [], []
-                for k in range(nfs[b]):
-                    s = stored[b][k]
-                    tok = -1
-                    for (tk, r) in reversed(results[(b, k)]):
-                        if torch.equal(s, r.to(dtype=s.dtype)):
-                            tok = tk
-                            break
-                    else:
-                        if not bool(s.any()):
-                            tok = 0
-                    tb.append(tok)
-                    fb.append(bool(torch.isfinite(s).all()))
-                    mb.append(bool(torch.isfinite(inspected(b, k)).all()))
-                toks.append(tb)
-                fins.append(fb)
-                fmf.append(mb)
-            cnts = getattr(plist, "_local_failed_amortized_computation_counter_list", None)
-            observations.append({
-                "out": out,
-                "cnts": [int(x) for x in cnts] if cnts is not None else [-1] * nbk,
-                "toks": toks, "fins": fins,
-                "pchg": [not bool(torch.equal(x, y)) for x, y in zip(before, after)],
-                "calls": st["calls"], "order_ok": st["order_ok"],
-                "present_b": present_b, "fmf": fmf,
-                # what the routine did where it was called, the script elsewhere
-                "rout": [[st["rec"].get((b, k), stp["script"][b][k]) for k in range(nfs[b])] for b in range(nbk)],
-            })
-    return {"nfs": nfs, "b2p": block2param, "obs": observations}
+            after = [snapshot(gr_) for gr_ in G]
+            advanced = [gi for gi, gr_ in enumerate(G) if int(gr_["sl"][STEP]) != steps_before[gi]]
+            graise = (max(advanced) if advanced else 0) if exc is not None else None
+            for gi, gr_ in enumerate(G):
+                if graise is not None and gi > graise:
+                    # step() never got to this group: nothing of it may have changed
+                    if not same(before[gi], after[gi]) and G[graise]["obs"]:
+                        G[graise]["obs"][-1]["order_ok"] = False
+                    continue
+                gr_["tick"] += 1
+                idx2bk, nfs, stored = gr_["idx2bk"], gr_["nfs"], gr_["stored"]
+                if exc is None or gi != graise:
+                    out = ["ok"]
+                elif type(exc) is PreconditionerValueError:
+                    m = re.search(r"factor matrix ([^\s!]+)!", str(exc))
+                    out = ["pve", *idx2bk[m.group(1)]] if m and m.group(1) in idx2bk else ["other", "PreconditionerValueError(unparsed)"]
+                elif type(exc) is ValueError and "exceeded the allowed tolerance" in str(exc):
+                    m = re.search(r"for factors \('([^']+)'", str(exc))
+                    out = ["tol", idx2bk[m.group(1)][0]] if m and m.group(1) in idx2bk else ["other", "ValueError(unparsed)"]
+                else:
+                    out = ["other", type(exc).__name__ + ": " + str(exc)[:120]]
+                toks, fins, fmf = [], [], []
+                for b in range(len(nfs)):
+                    tb, fb, mb = [], [], []
+                    for k in range(nfs[b]):
+                        s = stored[b][k]
+                        tok = -1
+                        for (tk, r) in reversed(gr_["results"][(b, k)]):
+                            if torch.equal(s, r.to(dtype=s.dtype)):
+                                tok = tk
+                                break
+                        else:
+                            if not bool(s.any()):
+                                tok = 0
+                        tb.append(tok)
+                        fb.append(bool(torch.isfinite(s).all()))
+                        mb.append(bool(torch.isfinite(inspected(gi, b, k)).all()))
+                    toks.append(tb)
+                    fins.append(fb)
+                    fmf.append(mb)
+                cnts = getattr(gr_["plist"], "_local_failed_amortized_computation_counter_list", None)
+                gr_["obs"].append({
+                    "t": t, "out": out,
+                    "cnts": [int(x) for x in cnts] if cnts is not None else [-1] * len(nfs),
+                    "toks": toks, "fins": fins,
+                    "pchg": [not bool(torch.equal(x, y)) for x, y in zip(before[gi][0], after[gi][0])],
+                    "calls": st["calls"][gi], "warn": st["warn"][gi], "order_ok": st["order_ok"],
+                    "present_b": gr_["present_b"], "fmf": fmf,
+                    # what the routine did where it was called, the script elsewhere
+                    "rout": [[st["rec"].get((gi, b, k), stp["script"][offs[gi] + b][k]) for k in range(nfs[b])] for b in range(len(nfs))],
+                })
+    return {"views": [{"gidx": gi, "nfs": gr_["nfs"], "b2p": gr_["b2p"], "obs": gr_["obs"]} for gi, gr_ in enumerate(G)]}
 
 
 # ----------------------------------------------------------------------------------------------
 # generation
 
+FORCED = ("exc_classes", "nonfinite_positions", "grad_zero", "grad_tiny", "grad_noncontig", "grad_huge", "grad_poison_variants",
+          "alternating_equal_shapes", "solver_newton", "solver_higher_order", "two_groups", "no_bias_correction", "weight_decay_momentum",
+          "inv_root_override", "large_N", "large_freq", "scalar_or_single_element_param", "storage_f16", "storage_bf16", "storage_f32_pre64",
+          "all_dims_ignored", "empty_param")
 
-def gen_config(rng: random.Random) -> dict:
-    kind = rng.choice(KINDS)
-    freq = rng.choice((1, 1, 2, 3))
+
+def gen_config(rng: random.Random, force: str | None = None) -> dict:
+    kind = rng.choice(KINDS[:3] * 3 + KINDS[3:])
+    freq = rng.choice((1, 1, 1, 2, 2, 3, 5))
     start = freq + rng.choice((0, 0, 0, 1, 2, freq))
     nparams = rng.randint(2, 4)
     shapes = [list(rng.choice(SHAPE_POOL)) for _ in range(nparams)]
     if rng.random() < 0.5:                     # make sure some blocks have equal shapes
         shapes[1] = list(shapes[0])
     mpd = rng.choice((1024, 1024, 4, 3))
-    return {
-        "kind": kind, "N": rng.choice((0, 0, 1, 1, 2, 2, 3, 4)), "freq": freq, "start": start, "shapes": shapes,
-        "mpd": mpd, "merge": rng.random() < 0.2, "ignored_dims": rng.choice(([], [], [], [0], [1])),
+    cfg = {
+        "kind": kind, "N": rng.choice((0, 0, 1, 1, 2, 2, 3, 4, 6)), "freq": freq, "start": start, "shapes": shapes,
+        "mpd": mpd, "merge": rng.random() < 0.2, "ignored_dims": rng.choice(([], [], [], [0], [1], [0, 1])),
         "beta1": rng.choice((0.0, 0.9)), "beta2": rng.choice((1.0, 0.999, 0.9)), "graft": rng.random() < 0.6,
         "pdtype": rng.choice(("f32", "f32", "f64", "f64", "f16", "f16", "bf16", "f32_pre64")), "pseed": rng.randrange(1 << 30),
+        "bias_corr": rng.random() < 0.8, "wd": rng.choice((0.0, 0.0, 0.0, 0.01)), "wd_decoupled": rng.random() < 0.5,
+        "momentum": rng.choice((0.0, 0.0, 0.9)), "inv_root_override": rng.choice((0, 0, 0, 2, [1, 2, 4])),
     }
+    if rng.random() < 0.15 and nparams >= 2:
+        cut = rng.randint(1, nparams - 1)
+        cfg["groups"] = [list(range(cut)), list(range(cut, nparams))]
+    if force == "solver_newton":
+        cfg["kind"] = "shampoo_newton"
+    elif force == "solver_higher_order":
+        cfg["kind"] = "shampoo_higher"
+    elif force == "two_groups":
+        cut = rng.randint(1, nparams - 1)
+        cfg["groups"] = [list(range(cut)), list(range(cut, nparams))]
+    elif force == "no_bias_correction":
+        cfg.update(bias_corr=False, beta2=rng.choice((0.999, 0.9)))
+    elif force == "weight_decay_momentum":
+        cfg.update(wd=0.01, wd_decoupled=rng.random() < 0.5, momentum=0.9)
+    elif force == "inv_root_override":
+        cfg.update(inv_root_override=rng.choice((1, 2, [1, 2, 4])), kind=rng.choice(("shampoo", "soap_eigh")))
+    elif force == "large_N":
+        cfg.update(N=rng.choice((5, 6, 8)), freq=1, start=1)
+    elif force == "large_freq":
+        cfg.update(freq=5, start=rng.choice((5, 6, 7)), N=rng.choice((0, 1)))
+    elif force == "scalar_or_single_element_param":
+        cfg["shapes"][0] = rng.choice(([], [1], [1, 1]))
+    elif force == "empty_param":
+        cfg["shapes"][-1] = [0]
+    elif force == "all_dims_ignored":
+        cfg.update(ignored_dims=[0, 1, 2])
+    elif force in ("storage_f16", "storage_bf16", "storage_f32_pre64"):
+        cfg["pdtype"] = force[len("storage_"):]
+    elif force == "alternating_equal_shapes":
+        cfg["shapes"][1] = list(cfg["shapes"][0])
+    elif force == "grad_huge":
+        cfg["pdtype"] = rng.choice(("f32", "f64"))
+    elif force == "grad_noncontig":
+        cfg.update(merge=False, shapes=[[3, 4]] + cfg["shapes"][1:])
+    if force == "inv_root_override":
+        cfg["ignored_dims"] = []
+    if cfg["ignored_dims"]:
+        cfg["inv_root_override"] = 0          # the constructor rejects the combination
+    return cfg
 
 
-def gen_history(rng: random.Random, config: dict, nfs: list, block2param: list, thorough: bool) -> tuple[list, dict]:
+def gen_history(rng: random.Random, config: dict, nfs: list, block2param: list, thorough: bool, force: str | None = None) -> tuple[list, dict]:
     nparams, nbk = len(config["shapes"]), len(nfs)
     nrefresh_wanted = config["N"] + rng.randint(2, 5)
     T = min(40 if thorough else 26, config["start"] + config["freq"] * nrefresh_wanted + rng.randint(0, 3))
-    pres_kind = rng.choice(("all", "toggle", "toggle", "random", "random", "windows"))
+    pres_kind = rng.choice(("all", "toggle", "toggle", "random", "random", "windows", "alternate"))
     fault_kind = rng.choice(("none", "always", "always", "random", "random", "random", "burst"))
     nonfinite = rng.random() < 0.25        # routine returns NaN/Inf somewhere
     narrowing = pdtype_of(config) in NARROWING
     overflow = narrowing and rng.random() < 0.5   # routine returns a finite matrix that overflows the storage dtype
     poison = rng.random() < 0.15           # a NaN/Inf gradient somewhere
+    gkinds = rng.random() < 0.3            # special gradient classes somewhere
+    exc_variety = rng.random() < 0.5
+    if force == "exc_classes":
+        exc_variety, fault_kind = True, rng.choice(("always", "random"))
+    elif force == "nonfinite_positions":
+        nonfinite = True
+    elif force in ("grad_zero", "grad_tiny", "grad_noncontig", "grad_huge"):
+        gkinds = True
+    elif force == "grad_poison_variants":
+        poison = True
+    elif force == "alternating_equal_shapes":
+        pres_kind = "alternate"
+    elif force in ("storage_f16", "storage_bf16", "storage_f32_pre64"):
+        overflow = True
     p_pres = rng.choice((0.4, 0.7, 0.9))
     p_fault = rng.choice((0.2, 0.5, 0.8, 1.0))
     period = rng.randint(2, 4)
@@ -266,6 +433,14 @@ def gen_history(rng: random.Random, config: dict, nfs: list, block2param: list, 
         always.add((b, rng.randrange(nfs[b])))
     burst = (rng.randint(1, T), rng.randint(2, 3 + 2 * config["N"] * config["freq"]))
     windows = [(rng.randint(1, T), rng.randint(1, T)) for _ in range(nparams)]
+    forced_g = {"grad_zero": ("zero",), "grad_tiny": ("tiny", "tiny2"), "grad_noncontig": ("noncontig",), "grad_huge": ("huge",)}.get(force)
+    gpool = ("zero", "tiny", "tiny2", "noncontig", "huge")
+    if config["merge"]:
+        # a gradient with non-default strides cannot be `view`ed to the merged dims (_merge_and_block_gradients raises a
+        # RuntimeError unrelated to C13): generated only without use_merge_dims
+        gpool = tuple(x for x in gpool if x != "noncontig")
+        if forced_g == ("noncontig",):
+            forced_g = None
     hist = []
     for t in range(1, T + 1):
         if pres_kind == "all":
@@ -274,6 +449,8 @@ def gen_history(rng: random.Random, config: dict, nfs: list, block2param: list, 
             pres = [pi == 0 or (t + pi) % period != 0 for pi in range(nparams)]
         elif pres_kind == "random":
             pres = [rng.random() < p_pres for _ in range(nparams)]
+        elif pres_kind == "alternate":          # parameters 0 and 1 take turns (same count, different pattern)
+            pres = [(t + pi) % 2 == 0 if pi < 2 else rng.random() < p_pres for pi in range(nparams)]
         else:
             pres = [min(w) <= t <= max(w) or pi == 0 for pi, w in enumerate(windows)]
         if rng.random() < 0.04:
@@ -289,31 +466,47 @@ def gen_history(rng: random.Random, config: dict, nfs: list, block2param: list, 
                     code = "raise"
                 elif fault_kind == "burst" and burst[0] <= t < burst[0] + burst[1] and (b, k) in always:
                     code = "raise"
-                if nonfinite and rng.random() < 0.04:
-                    code = rng.choice(("nan", "inf"))
+                if code == "raise" and exc_variety:
+                    code = "raise:" + rng.choice(RAISE_CLASSES)
+                if nonfinite and rng.random() < (0.08 if force == "nonfinite_positions" else 0.04):
+                    code = rng.choice(NONFINITE_CODES)
                 if overflow and rng.random() < 0.06:
-                    code = "ovf"
+                    code = rng.choice(("ovf", "ovf", "ovf:last", "ovf:offdiag"))
                 row.append(code)
             script.append(row)
-        pz = [rng.choice(("nan", "inf")) if (poison and pres[pi] and rng.random() < 0.06) else None for pi in range(nparams)]
-        hist.append({"present": pres, "script": script, "gseed": rng.randrange(1 << 30), "poison": pz})
-    return hist, {"presence": pres_kind, "faults": fault_kind, "nonfinite_results": nonfinite, "poison": poison, "storage_overflow": overflow}
+        pz = [rng.choice(("nan", "inf", "-inf")) if (poison and pres[pi] and rng.random() < (0.12 if force == "grad_poison_variants" else 0.06)) else None
+              for pi in range(nparams)]
+        if forced_g:
+            gk = [rng.choice(forced_g) if rng.random() < 0.5 else None for _ in range(nparams)]
+        elif gkinds:
+            gk = [rng.choice(gpool) if rng.random() < 0.2 else None for _ in range(nparams)]
+        else:
+            gk = [None] * nparams
+        hist.append({"present": pres, "script": script, "gseed": rng.randrange(1 << 30), "poison": pz,
+                     "gkind": gk, "ppos": [rng.randrange(64) for _ in range(nparams)]})
+    return hist, {"presence": pres_kind, "faults": fault_kind, "nonfinite_results": nonfinite, "poison": poison, "storage_overflow": overflow,
+                  "forced": force}
+
+
+def views_to_cases(base: dict, res: dict) -> list:
+    return [dict(base, gidx=v["gidx"], nfs=v["nfs"], b2p=v["b2p"], obs=v["obs"]) for v in res["views"] if v["obs"]] or \
+           [dict(base, gidx=0, nfs=res["views"][0]["nfs"], b2p=res["views"][0]["b2p"], obs=[])]
 
 
 def make_case(seed_tier):
-    seed, thorough = seed_tier
+    seed, thorough, force = seed_tier
     rng = random.Random(seed)
-    config = gen_config(rng)
-    _, _, _, _, _, nfs, block2param = build(config)
-    history, kinds = gen_history(rng, config, nfs, block2param, thorough)
+    config = gen_config(rng, force)
+    nfs, block2param = layout(config)
+    history, kinds = gen_history(rng, config, nfs, block2param, thorough, force)
     res = run_impl(config, history)
-    return {"seed": seed, "config": config, "history": history, "kinds": kinds, **res}
+    return views_to_cases({"seed": seed, "config": config, "history": history, "kinds": kinds}, res)
 
 
 def make_explicit(args):
     config, history, kinds = args
     res = run_impl(config, history)
-    return {"seed": None, "config": config, "history": history, "kinds": kinds, **res}
+    return views_to_cases({"seed": None, "config": config, "history": history, "kinds": kinds}, res)
 
 
 ENUM_BASE = {"shapes": [[3], [3]], "mpd": 1024, "merge": False, "ignored_dims": [], "beta1": 0.0, "beta2": 1.0, "graft": False,
@@ -341,12 +534,14 @@ def corpus_cases():
 
 
 def rerun(args):
-    config, history = args
+    """Re-run a shrink candidate; returns the view of group `gidx` or None."""
+    config, history, gidx = args
     try:
-        _, _, _, _, _, nfs, _ = build(config)
+        nfs, _ = layout(config)
         if any(len(st["script"]) != len(nfs) or any(len(row) != n for row, n in zip(st["script"], nfs)) for st in history):
             return None          # the candidate changed the block layout: the script no longer fits
-        return run_impl(config, history)
+        views = run_impl(config, history)["views"]
+        return views[gidx] if gidx < len(views) and views[gidx]["obs"] else None
     except Exception:  # noqa
         return None
 
@@ -370,7 +565,7 @@ def coq_hist(obs, nfs) -> str:
     for o in obs:
         blocks = []
         for b in range(len(nfs)):
-            fis = "; ".join(f"fi {coq_bool(o['fmf'][b][k])} {CODE2COQ[o['rout'][b][k]]}" for k in range(nfs[b]))
+            fis = "; ".join(f"fi {coq_bool(o['fmf'][b][k])} {coq_code(o['rout'][b][k])}" for k in range(nfs[b]))
             blocks.append(f"bi {coq_bool(o['present_b'][b])} [{fis}]")
         steps.append("si [" + "; ".join(blocks) + "]")
     return "[" + ";\n  ".join(steps) + "]"
@@ -393,7 +588,7 @@ def coq_obs(obs) -> str:
         tk = "[" + "; ".join("[" + "; ".join(f"({x})" for x in row) + "]" for row in o["toks"]) + "]%Z"
         fn = "[" + "; ".join("[" + "; ".join(coq_bool(x) for x in row) + "]" for row in o["fins"]) + "]"
         pc = "[" + "; ".join(coq_bool(x) for x in o["pchg"]) + "]"
-        items.append(f"Build_obs ({coq_out(o['out'])}) {cn} {tk} {fn} {pc} {o['calls']}")
+        items.append(f"Build_obs ({coq_out(o['out'])}) {cn} {tk} {fn} {pc} {o['calls']} {o.get('warn', 0)}")
     return "[" + ";\n  ".join(items) + "]"
 
 
@@ -440,34 +635,46 @@ def eval_cases(ck: Check, tag: str, cases: list, per_file: int = 40, with_show: 
 def signature_of(config, history) -> str:
     """Stable signature of a failing input: computed from the input only."""
     sel_changes = sum(1 for a, b in zip(history, history[1:]) if a["present"] != b["present"])
-    faults = any(c == "raise" for s in history for row in s["script"] for c in row)
-    nonfin = any(c in ("nan", "inf", "ovf") for s in history for row in s["script"] for c in row) or any(p for s in history for p in s["poison"])
+    faults = any(c.startswith("raise") for s in history for row in s["script"] for c in row)
+    nonfin = any(c.split(":")[0] in ("nan", "inf", "-inf", "ovf") for s in history for row in s["script"] for c in row) or any(p for s in history for p in s["poison"])
     return "C13:" + ("mask-change+" if sel_changes else "const-mask+") + ("failures" if faults else "nofail") + ("+nonfinite" if nonfin else "")
 
 
-def drop_param(config, history, b2p, pi):
+def drop_param(config, history, pi):
+    """Candidate without parameter pi (single-group configurations only)."""
+    _, b2p = layout(config)
     keep_b = [b for b, q in enumerate(b2p) if q != pi]
     cfg2 = dict(config, shapes=[sh for j, sh in enumerate(config["shapes"]) if j != pi])
-    h2 = [dict(s, present=[x for j, x in enumerate(s["present"]) if j != pi], poison=[x for j, x in enumerate(s["poison"]) if j != pi],
-               script=[s["script"][b] for b in keep_b]) for s in history]
+    cfg2.pop("groups", None)
+    drop = lambda xs: [x for j, x in enumerate(xs) if j != pi]  # noqa: E731
+    h2 = [dict(s, present=drop(s["present"]), poison=drop(s["poison"]), script=[s["script"][b] for b in keep_b],
+               **({"gkind": drop(s["gkind"])} if s.get("gkind") else {}), **({"ppos": drop(s["ppos"])} if s.get("ppos") else {})) for s in history]
     return cfg2, h2
+
+
+def soap_ovf_obs(config, obs) -> bool:
+    """Class of finding F12 (repaired in /repo as 97ae504): an eigenvector list whose routine returned a matrix that
+    overflows the storage dtype, and a stored matrix that is not finite."""
+    return ((not is_shampoo(config)) and any(x == "ovf" for o in obs for row in o["rout"] for x in row)
+            and any(not all(r) for o in obs for r in o["fins"]))
 
 
 def shrink(ck: Check, pool, case, which: int, tag: str = "main"):
     """Greedy shrink of a failing case (which: 1 = behaviour checker false, 2 = full checker false)."""
-    config, history, nfs, b2p, obs = case["config"], list(case["history"]), case["nfs"], case["b2p"], case["obs"]
+    config, history, nfs, obs, gidx = case["config"], list(case["history"]), case["nfs"], case["obs"], case["gidx"]
+    keep_class = lambda cfg, ob: soap_ovf_obs(cfg, ob) == (tag == "soapovf")  # noqa: E731
     # 1. shortest failing prefix (a prefix of a run is the run of the prefix: no re-run needed)
-    pref = [(config, nfs, obs[:L]) for L in range(1, len(history) + 1)]
-    keep_class = (lambda cfg, ob: (cfg["kind"] != "shampoo" and any(x == "ovf" for o in ob for row in o["rout"] for x in row)) == (tag == "soapovf"))
+    pref = [(config, nfs, obs[:L]) for L in range(1, len(obs) + 1)]
     r = eval_cases(ck, f"shr_{tag}_prefix", pref)
-    L = next((i + 1 for i, x in enumerate(r) if not x[which] and keep_class(config, obs[:i + 1])), len(history))
-    history, obs = history[:L], obs[:L]
-    # 2. drop parameters / single steps, simplify steps, while the checker still fails (each candidate is re-run)
+    L = next((i + 1 for i, x in enumerate(r) if not x[which] and keep_class(config, obs[:i + 1])), len(obs))
+    history, obs = history[:obs[L - 1]["t"]], obs[:L]
+    # 2. drop parameters / single steps, simplify steps and options, while the checker still fails (each candidate is re-run)
     for _round in range(8):
         cands = []
-        if len(config["shapes"]) > 1:
+        single = len(groups_of(config)) == 1
+        if single and len(config["shapes"]) > 1:
             for pi in range(len(config["shapes"])):
-                cands.append(drop_param(config, history, b2p, pi))
+                cands.append(drop_param(config, history, pi))
         for j in range(len(history) - 1):
             cands.append((config, history[:j] + history[j + 1:]))
         for j in range(len(history)):
@@ -477,37 +684,126 @@ def shrink(ck: Check, pool, case, which: int, tag: str = "main"):
                 cands.append((config, history[:j] + [s2] + history[j + 1:]))
             if not all(s["present"]):
                 cands.append((config, history[:j] + [dict(s, present=[True] * len(s["present"]))] + history[j + 1:]))
-        for key, val in (("mpd", 1024), ("ignored_dims", []), ("graft", False), ("beta1", 0.0), ("beta2", 1.0), ("merge", False)):
-            if config.get(key) != val:
+            if any(s.get("gkind") or []):
+                cands.append((config, history[:j] + [dict(s, gkind=[None] * len(s["present"]))] + history[j + 1:]))
+        for key, val in (("mpd", 1024), ("ignored_dims", []), ("graft", False), ("beta1", 0.0), ("beta2", 1.0), ("merge", False),
+                         ("bias_corr", True), ("wd", 0.0), ("momentum", 0.0), ("inv_root_override", 0), ("pdtype", "f32")):
+            if config.get(key, val) != val:
                 cands.append((dict(config, **{key: val}), history))
+        if not single and gidx == 0:
+            cands.append(({k: v for k, v in config.items() if k != "groups"}, history))
         if not cands:
             break
-        runs = pool.map(rerun, cands)
-        usable = [i for i, x in enumerate(runs) if x is not None]
-        if not usable:
-            break
-        usable = [i for i in usable if keep_class(cands[i][0], runs[i]["obs"])]
+        runs = pool.map(rerun, [(cfg, h, gidx) for cfg, h in cands])
+        usable = [i for i, x in enumerate(runs) if x is not None and keep_class(cands[i][0], x["obs"])]
         if not usable:
             break
         rr = eval_cases(ck, f"shr_{tag}_{_round}", [(cands[i][0], runs[i]["nfs"], runs[i]["obs"]) for i in usable])
-        ok = [(len(runs[i]["nfs"]), len(cands[i][1]), sum(c != "ok" for s in cands[i][1] for row in s["script"] for c in row), i)
+        ok = [(len(groups_of(cands[i][0])), len(runs[i]["nfs"]), len(cands[i][1]), sum(c != "ok" for s in cands[i][1] for row in s["script"] for c in row), i)
               for i, x in zip(usable, rr) if not x[which]]
         if not ok:
             break
-        i = min(ok)[3]
+        i = min(ok)[-1]
         config, history = cands[i]
-        nfs, b2p, obs = runs[i]["nfs"], runs[i]["b2p"], runs[i]["obs"]
+        nfs, obs = runs[i]["nfs"], runs[i]["obs"]
     return config, history, nfs, obs
 
 
-def describe(config, history, obs, nfs) -> str:
+def describe(config, obs, nfs, gidx=0) -> str:
     rows = []
-    for t, (s, o) in enumerate(zip(history, obs), start=1):
+    for o in obs:
         nonfin = "" if all(all(r) for r in o["fins"]) else f" STORED-NONFINITE={o['fins']}"
         fmnf = "" if all(all(r) for r in o["fmf"]) else f" factor-matrix-finite={o['fmf']}"
-        rows.append(f"t{t}: present={''.join('1' if x else '0' for x in o['present_b'])} routine={o['rout']}{fmnf} -> {o['out']} counters={o['cnts']} "
-                    f"stored-tokens={o['toks']}{nonfin} params-changed={''.join('1' if x else '0' for x in o['pchg'])}")
-    return f"{config['kind']} N={config['N']} freq={config['freq']} start={config['start']} nfs={nfs}: " + " | ".join(rows)
+        rows.append(f"t{o['t']}: present={''.join('1' if x else '0' for x in o['present_b'])} routine={o['rout']}{fmnf} -> {o['out']} counters={o['cnts']} "
+                    f"stored-tokens={o['toks']}{nonfin} params-changed={''.join('1' if x else '0' for x in o['pchg'])} warnings={o.get('warn')}")
+    grp = f" group {gidx} of {groups_of(config)}" if len(groups_of(config)) > 1 else ""
+    return (f"{config['kind']} {'/'.join(PDTYPES[pdtype_of(config)])} N={config['N']} freq={config['freq']} start={config['start']} nfs={nfs}{grp}: "
+            + " | ".join(rows))
+
+
+def classes_of(c) -> list:
+    """Input classes (quantifier audit) a generated case belongs to; measured on what was actually run."""
+    cfg, hist_, obs = c["config"], c["history"], c["obs"]
+    scripts = [code for s in hist_ for row in s["script"] for code in row]
+    out = ["kind:" + cfg["kind"], "dtype:" + "/".join(PDTYPES[pdtype_of(cfg)]), f"N={cfg['N']}" if cfg["N"] <= 4 else "N>=5",
+           f"freq={cfg['freq']}", "start==freq" if cfg["start"] == cfg["freq"] else "start>freq"]
+    for code in set(scripts):
+        if code.startswith("raise"):
+            out.append("routine_raises:" + (code.split(":")[1] if ":" in code else "RuntimeError"))
+        elif code != "ok":
+            out.append("routine_returns:" + code)
+    rec = {x for o in obs for row in o["rout"] for x in row}
+    if "ovf" in rec:
+        out.append("result_overflows_storage_dtype(recorded)")
+    if any(o["out"][0] == "pve" for o in obs):
+        out.append("step_raises_PreconditionerValueError")
+    if any(o["out"][0] == "tol" for o in obs):
+        out.append("step_raises_tolerance_ValueError")
+    if sum(1 for o in obs if o["out"][0] != "ok") >= 2:
+        out.append("history_continues_after_an_exception")
+    if any(not all(all(r) for r in o["fmf"]) for o in obs):
+        out.append("factor_matrix_nonfinite_at_some_step")
+    for s in hist_:
+        for pz in s["poison"]:
+            if pz:
+                out.append("gradient_contains:" + pz)
+        for gk, pr in zip(s.get("gkind") or [], s["present"]):
+            if gk and pr:
+                out.append("gradient:" + gk)
+        if not any(s["present"]):
+            out.append("step_without_any_gradient")
+    changes = any(a["present_b"] != b["present_b"] for a, b in zip(obs, obs[1:]))
+    failing = any(x > 0 for o in obs for x in o["cnts"])
+    if changes and failing:
+        out.append("selector_changes_while_a_count_is_nonzero")
+    if cfg["freq"] > 1 and any(a["present"] != b["present"] for a, b in zip(hist_, hist_[1:])):
+        out.append("blocks_enter_or_leave_between_refreshes(freq>1)")
+    if c["kinds"]["presence"] == "alternate":
+        out.append("two_parameters_alternate(same_count_different_pattern)")
+    shp = [tuple(x) for x in cfg["shapes"]]
+    if len(set(shp)) < len(shp):
+        out.append("equal_shaped_parameters")
+    if any(len(x) == 0 or (len(x) >= 1 and all(d == 1 for d in x)) for x in shp):
+        out.append("scalar_or_single_element_parameter")
+    if any(0 in x for x in shp):
+        out.append("empty_parameter")
+    if len(c["nfs"]) > len([q for q in set(c["b2p"])]):
+        out.append("parameter_split_into_several_blocks")
+    if 0 in c["nfs"]:
+        out.append("block_without_factors")
+    if any(n >= 3 for n in c["nfs"]):
+        out.append("block_with_3_factors")
+    if len(groups_of(cfg)) > 1:
+        out.append("two_parameter_groups")
+        if c["gidx"] > 0:
+            out.append("two_parameter_groups:second_group_view")
+    if not cfg.get("bias_corr", True):
+        out.append("use_bias_correction=False")
+    if cfg.get("wd", 0.0):
+        out.append("weight_decay" + ("(decoupled)" if cfg.get("wd_decoupled", True) else "(L2)"))
+    if cfg.get("momentum", 0.0):
+        out.append("momentum")
+    if cfg.get("inv_root_override", 0):
+        out.append("inv_root_override")
+    if cfg["merge"]:
+        out.append("use_merge_dims")
+    if cfg["graft"]:
+        out.append("grafting")
+    if cfg["beta2"] < 1.0:
+        out.append("beta2<1")
+    return sorted(set(out))
+
+
+NOT_EXERCISED = {
+    "distributed configurations (DDP/FSDP/HSDP/fully_shard: local block list is a sub-list of the global one)": "single process, default Distributor; C06-C08 cover the distributors, the counter protocol is per local list",
+    "CUDA / eigen_decomp_offload_device / PT2-compiled step": "CPU-only sandbox; _amortized_computation is torch.compiler.disable'd",
+    "BaseException (KeyboardInterrupt, SystemExit) thrown by the routine": "not an Exception: propagates by design, would abort the harness worker",
+    "bfloat16/float16 *factor* matrices (preconditioner_dtype half)": "torch CPU has no eigh/qr kernels for half dtypes: every refresh would fail for a platform reason, not exercise the protocol differently",
+    "float16 storage overflow of a real SOAP eigenvector matrix": "impossible: orthonormal columns have entries of magnitude <= 1; only reachable by injection (exercised)",
+    "state restored from a checkpoint between failures": "C09's subject (counters are not part of the checkpoint)",
+    "text of the logged warning": "only the number of warnings per step is compared",
+    "more than two parameter groups / groups with different hyperparameters": "two twin groups exercised; groups are independent instances of the same list class",
+}
 
 
 # ----------------------------------------------------------------------------------------------
@@ -518,8 +814,10 @@ def run(ck: Check) -> None:
     ck.coq_props()
     gen_targets.run(ck)          # translator tie: Gallina regenerated from the source + coq/gen/EquivC13.v
     thorough = ck.tier == "thorough"
-    ncases = 8000 if thorough else 500
-    seeds = [(ck.rng.randrange(1 << 40), thorough) for _ in range(ncases)]
+    ncases = 8000 if thorough else 450
+    nforced = 40 if thorough else 10
+    seeds = [(ck.rng.randrange(1 << 40), thorough, None) for _ in range(ncases)]
+    seeds += [(ck.rng.randrange(1 << 40), thorough, f) for f in FORCED for _ in range(nforced)]
     explicit = corpus_cases()
     ncorpus = len(explicit)
     if thorough:
@@ -528,19 +826,25 @@ def run(ck: Check) -> None:
         enum_scopes = [("shampoo", 1, 1, 1, 3), ("soap_qr", 0, 1, 1, 3), ("soap_eigh", 1, 1, 2, 3)]
     for sc in enum_scopes:
         explicit += list(enum_cases(*sc))
+    flat = lambda ll: [c for l in ll for c in l]  # noqa: E731
     with mp.get_context("fork").Pool(16) as pool:
-        cases = pool.map(make_explicit, explicit, chunksize=32) + pool.map(make_case, seeds, chunksize=4)
+        cases_explicit = flat(pool.map(make_explicit, explicit, chunksize=32))
+        cases_random = flat(pool.map(make_case, seeds, chunksize=4))
+        cases = cases_explicit + cases_random
         res = eval_cases(ck, "main", [(c["config"], c["nfs"], c["obs"]) for c in cases], per_file=120)
         bad = [(c, r) for c, r in zip(cases, res) if not r[0]]
         # an exception of the right class whose message does not name a known block cannot be judged by the checker
         # (position unknown): such runs count as disagreements, not as decided violations
         # the same holds when the routine was not queried in the modelled order (the recorded inputs are then misaligned)
-        unparsed = lambda c: any((o["out"][0] == "other" and o["out"][1].endswith("(unparsed)")) or not o["order_ok"] for o in c["obs"])  # noqa: E731
+        # (an injected routine failure that escapes optimizer.step() is decided: the property says it is tolerated)
+        escaped = lambda o: o["out"][0] == "other" and "injected failure of the matrix routine" in o["out"][1]  # noqa: E731
+        unparsed = lambda c: any((o["out"][0] == "other" and not escaped(o)) or not o["order_ok"] for o in c["obs"])  # noqa: E731
         beh_fail = [c for c, r in zip(cases, res) if not r[1] and not unparsed(c)]
         cnt_fail = [c for c, r in zip(cases, res) if r[1] and not r[2] and not unparsed(c)]
-        # finding class "SOAP list stores a result that overflows the storage dtype": an eigenvector list whose routine
-        # actually returned such a matrix (recorded outcome "ovf") - a predicate over the input, reported separately
-        soap_ovf = lambda c: c["config"]["kind"] != "shampoo" and any(x == "ovf" for o in c["obs"] for row in o["rout"] for x in row)  # noqa: E731
+        # finding class "SOAP list stores a result that overflows the storage dtype" (F12, repaired in /repo as 97ae504): an
+        # eigenvector list whose routine actually returned such a matrix (recorded outcome "ovf") - a predicate over the
+        # input, reported separately under its own signature
+        soap_ovf = lambda c: soap_ovf_obs(c["config"], c["obs"])  # noqa: E731
         groups = []
         for tag, pred in (("soapovf", soap_ovf), ("main", lambda c: not soap_ovf(c))):
             bf = [c for c in beh_fail if pred(c)]
@@ -548,7 +852,7 @@ def run(ck: Check) -> None:
             if bf or cf:
                 groups.append((tag, 1 if bf else 2, bf or cf))
         for tag, which, lst in groups:
-            lst = sorted(lst, key=lambda c: (len(c["nfs"]), len(c["history"])))
+            lst = sorted(lst, key=lambda c: (len(groups_of(c["config"])), len(c["nfs"]), len(c["obs"])))
             c0 = lst[0]
             config, history, nfs, obs = shrink(ck, pool, c0, which, tag)
             model = eval_cases(ck, f"rep_{tag}", [(config, nfs, obs)], with_show=True)[0][3]
@@ -558,21 +862,21 @@ def run(ck: Check) -> None:
                         "the check, unlike the Shampoo list); reachable only when the routine returns a finite matrix that overflows the storage dtype: ")
                 sig = SOAP_OVERFLOW_SIG
             else:
-                what = ("real optimizer violates C13 (raise-iff-consecutive-failures / kept matrix / finite stored / no parameter write on raise): "
+                what = ("real optimizer violates C13 (raise-iff-consecutive-failures / kept matrix / one warning per failure / finite stored / no parameter write on raise): "
                         if which == 1 else
                         "failure counters of the real optimizer are not the number of consecutive failed refreshes (observable behaviour still passes): ")
                 sig = signature_of(config, history)
-            ck.report(sig, what + describe(config, history, obs, nfs) + f" || model: {model}",
-                      {"kind": "property-fails", "config": config, "history": history, "nfs": nfs, "observed": obs, "model": model,
+            ck.report(sig, what + describe(config, obs, nfs, c0["gidx"]) + f" || model: {model}",
+                      {"kind": "property-fails", "config": config, "history": history, "nfs": nfs, "gidx": c0["gidx"], "observed": obs, "model": model,
                        "n_failing_cases": len(lst), "predicate": "C13_behaviour_checkb" if which == 1 else "C13_checkb (counter clause)",
                        "original_seed_case": c0["seed"], "original_length": len(c0["history"])})
         if not groups and bad:
-            c0, _ = min(bad, key=lambda cr: len(cr[0]["history"]))
+            c0, _ = min(bad, key=lambda cr: (len(groups_of(cr[0]["config"])), len(cr[0]["obs"])))
             model = eval_cases(ck, "rep", [(c0["config"], c0["nfs"], c0["obs"])], with_show=True)[0][3]
-            ck.report(None, f"model/implementation correspondence broken on {len(bad)} histories (Failures.agree false; {sum(1 for c, _ in bad if unparsed(c))} of them with an unreadable exception message or an unexpected query order) and no observed run is decided to violate C13 by C13_checkb; first: "
-                      + describe(c0["config"], c0["history"], c0["obs"], c0["nfs"]) + f" || model: {model}",
+            ck.report(None, f"model/implementation correspondence broken on {len(bad)} histories (Failures.agree false; {sum(1 for c, _ in bad if unparsed(c))} of them with an unreadable exception message, an unexpected query order or a change in a parameter group step() did not get to) and no observed run is decided to violate C13 by C13_checkb; first: "
+                      + describe(c0["config"], c0["obs"], c0["nfs"], c0["gidx"]) + f" || model: {model}",
                       {"kind": "correspondence", "broken": "Failures.agree (model step vs optimizer.step)", "config": c0["config"], "history": c0["history"],
-                       "nfs": c0["nfs"], "observed": c0["obs"], "model": model,
+                       "nfs": c0["nfs"], "gidx": c0["gidx"], "observed": c0["obs"], "model": model,
                        "theorems_not_transferring": ["C13_raises_iff_consecutive_failures_exceed", "C13_counter_refines", "C13_success_resets",
                                                      "C13_failure_keeps_previous_matrix", "C13_stored_roots_finite", "C13_nan_raises_before_param_update"]},
                       no_failing_input=True)
@@ -588,6 +892,7 @@ def run(ck: Check) -> None:
     nontriv = 0
     mask_and_fail = 0
     steps = 0
+    audit = {}
     for c in cases:
         steps += len(c["obs"])
         kinds = {o["out"][0] for o in c["obs"]}
@@ -599,18 +904,24 @@ def run(ck: Check) -> None:
             nontriv += 1
         if changes and failing:
             mask_and_fail += 1
+        for cl in classes_of(c):
+            audit[cl] = audit.get(cl, 0) + 1
     smp = []
-    for c in (cases[ncorpus + 4321 % max(1, len(explicit) - ncorpus)], cases[len(explicit) + ncases // 2], cases[-1]):
-        smp.append({"config": {k: c["config"][k] for k in ("kind", "N", "freq", "start", "shapes", "mpd", "ignored_dims")} | {"pdtype": pdtype_of(c["config"])}, "nfs": c["nfs"],
-                    "steps": [{"present": "".join("1" if x else "0" for x in o["present_b"]), "routine": o["rout"], "out": o["out"], "counters": o["cnts"]} for o in c["obs"][:8]]})
+    for c in (cases[ncorpus + 4321 % max(1, len(cases_explicit) - ncorpus)], cases[len(cases_explicit) + len(cases_random) // 3], cases[-1]):
+        smp.append({"config": {k: c["config"][k] for k in ("kind", "N", "freq", "start", "shapes", "mpd", "ignored_dims")} | {"pdtype": pdtype_of(c["config"]), "groups": groups_of(c["config"])},
+                    "nfs": c["nfs"], "group": c["gidx"],
+                    "steps": [{"t": o["t"], "present": "".join("1" if x else "0" for x in o["present_b"]), "routine": o["rout"], "out": o["out"], "counters": o["cnts"], "warnings": o["warn"]} for o in c["obs"][:8]]})
     ck.coverage.update({
         "evaluations": len(cases),
         "optimizer_steps": steps,
         "distinct_nontrivial": nontriv,
-        "rule": "one evaluation = one (configuration, presence history, fault script) run of the real optimizer compared step by step with the model inside coqc; non-trivial = the run contains an exception or a non-zero failure counter. Sources: corpus/C13/*.json, then every history of the enumerated small scopes (two single-factor blocks, each per step absent/ok/fail; (kind,N,freq,start,length) in enumerated_scopes), then seeded random cases",
+        "rule": "one evaluation = one (configuration, presence history, fault script, parameter group) run of the real optimizer compared step by step with the model inside coqc; non-trivial = the run contains an exception or a non-zero failure counter. Sources: corpus/C13/*.json, then every history of the enumerated small scopes (two single-factor blocks, each per step absent/ok/fail; (kind,N,freq,start,length) in enumerated_scopes), then seeded random cases, then seeded cases forced into each class of FORCED",
         "exhaustive": False,
         "enumerated_scopes": [list(x) for x in enum_scopes], "enumerated_cases": len(explicit) - ncorpus, "corpus_cases": ncorpus, "random_cases": ncases,
+        "forced_cases_per_class": nforced, "forced_classes": list(FORCED),
         "samples": smp,
+        "quantifier_audit": dict(sorted(audit.items())),
+        "not_exercised": NOT_EXERCISED,
         "distribution": {
             "kind": hist(lambda c: c["config"]["kind"]), "N": hist(lambda c: c["config"]["N"]), "freq": hist(lambda c: c["config"]["freq"]),
             "start_minus_freq": hist(lambda c: c["config"]["start"] - c["config"]["freq"]), "local_blocks": hist(lambda c: len(c["nfs"])),
@@ -621,26 +932,29 @@ def run(ck: Check) -> None:
             "histories_with_storage_overflow_result": sum(1 for c in cases if any(x == "ovf" for o in c["obs"] for row in o["rout"] for x in row)),
             "history_length": hist(lambda c: len(c["history"]) // 5 * 5),
             "step_outcomes": outs, "histories_with_mask_change_and_failures": mask_and_fail,
+            "logged_warnings": sum(o["warn"] for c in cases for o in c["obs"]),
         },
         "disagreements": len(bad), "behaviour_checker_failures": len(beh_fail), "counter_checker_failures": len(cnt_fail),
     })
     ck.assumptions += [
-        "the block/factor named by an exception is read from its message (factor_matrix_indices)",
+        "the block/factor named by an exception is read from its message (factor_matrix_indices); with two parameter groups the raising group is the last one whose step counter advanced",
         "a stored matrix is identified with the latest successful routine result it equals bitwise (token), the all-zero matrix with the initial one",
         "the routine's outcome and the finiteness of the inspected factor matrix are recorded from the run (oracle in the loop), the fault script decides the rest",
+        "warnings are counted by replacing the `warning` method of the preconditioner-list module's logger",
     ]
     ck.gen_equiv_verdict()
 
 
 def replay(obj) -> bool:
     common.assert_repo_imports()
-    res = run_impl(obj["config"], obj["history"])
+    views = run_impl(obj["config"], obj["history"])["views"]
+    res = views[obj.get("gidx", 0)]
     same = True
-    for t, (o, r) in enumerate(zip(res["obs"], obj.get("observed", [])), start=1):
-        line = f"t{t}: present={''.join('1' if x else '0' for x in o['present_b'])} routine={o['rout']} -> {o['out']} counters={o['cnts']} tokens={o['toks']}"
-        if o["out"] != r["out"] or o["cnts"] != r["cnts"]:
+    for o, r in zip(res["obs"], obj.get("observed", [])):
+        line = f"t{o['t']}: present={''.join('1' if x else '0' for x in o['present_b'])} routine={o['rout']} -> {o['out']} counters={o['cnts']} tokens={o['toks']} warnings={o['warn']}"
+        if o["out"] != r["out"] or o["cnts"] != r["cnts"] or o["toks"] != r["toks"] or o["fins"] != r["fins"] or o["pchg"] != r["pchg"]:
             same = False
-            line += f"   (recorded: {r['out']} counters={r['cnts']})"
+            line += f"   (recorded: {r['out']} counters={r['cnts']} tokens={r['toks']})"
         print(line)
     print("model expects:", obj.get("model"))
     print("implementation behaves as recorded" if same else "implementation behaves differently from the recording")
